@@ -111,8 +111,11 @@ func Instrument(srcDir, dstDir, simrtDir string, withTests bool) (*Result, error
 		}
 		fc := &fileCtx{name: n, src: b, file: f}
 		for _, cg := range f.Comments {
-			if cg.Pos() < f.Package && strings.Contains(cg.Text(), "Code generated") {
-				fc.generated = true
+			for _, cm := range cg.List {
+				// the convention of golang.org/s/generatedcode, wherever the line stands
+				if strings.HasPrefix(cm.Text, "// Code generated ") && strings.HasSuffix(strings.TrimSpace(cm.Text), "DO NOT EDIT.") {
+					fc.generated = true
+				}
 			}
 		}
 		files = append(files, fc)
@@ -310,7 +313,10 @@ func (c *ctx) funcBody(fc *fileCtx, body *ast.BlockStmt, fn fnCtx, res *Result) 
 // statement (an entry/loop yield immediately precedes it).
 func (c *ctx) stmtList(fc *fileCtx, list []ast.Stmt, fn fnCtx, res *Result, skipFirst bool) {
 	for i, s := range list {
-		if !(i == 0 && skipFirst) {
+		// generated files get function-entry yields only: which statements of the generated
+		// helpers run (e.g. tokens32.Add growing its tree or not) depends on what the process
+		// parsed before, and a run's schedule must not
+		if !(i == 0 && skipFirst) && !fc.generated {
 			id := c.newSite(fc, s.Pos(), fn.name, kindStmt, fn.flags)
 			c.insert(fc, s.Pos(), fmt.Sprintf("simrt.Yield(%d);", id))
 		}
@@ -319,6 +325,10 @@ func (c *ctx) stmtList(fc *fileCtx, list []ast.Stmt, fn fnCtx, res *Result, skip
 }
 
 func (c *ctx) loopBody(fc *fileCtx, body *ast.BlockStmt, fn fnCtx, res *Result, prefix string) {
+	if fc.generated && prefix == "" {
+		c.stmtList(fc, body.List, fn, res, true)
+		return
+	}
 	id := c.newSite(fc, body.Lbrace, fn.name, kindLoop, fn.flags)
 	c.insert(fc, body.Lbrace+1, prefix+fmt.Sprintf("simrt.Yield(%d);", id))
 	c.stmtList(fc, body.List, fn, res, true)
